@@ -187,7 +187,7 @@ LEMMAS = {
            'create_runtime keep the very halt flag the embedder passed (pointer identity) for every combination of writers.',
     'C04': 'Also: if, elseif and else as single steps from an arbitrary call-info stack with block boundaries and condition value as arbitrary results: a branch '
            'runs iff no earlier one ran and its condition holds, the condition is not evaluated once a branch ran, a skipped branch jumps to the next branch line or '
-           'behind the end; while / end_while likewise (DESIGN.md 8.20).',
+           'behind the end; while / end_while and for / end_for (pass k binds element k) likewise (DESIGN.md 8.20).',
     'C05': 'Also: call, return and end of a function as single steps from an arbitrary call stack (entries pushed by the real push_to_call_stack from symbolic '
            'values), arbitrary variables and scope stack: recursion of any depth and call sequences of any length by induction (DESIGN.md 8.18).',
     'C06': 'Also: per-token lemmas of eval_condition_for_slice from an arbitrary evaluator state (START / AT / AND / OR / GROUP(k)) with the recursive group '
